@@ -47,7 +47,7 @@ def plan(prop: str, tier: str) -> Plan:
     tzs = [{"TZ": "UTC"}, {"TZ": "EST5EDT"}, {"TZ": "XYZ-5:30"}, {"TZ": "UTC"}]   # process time zone must not matter
     if tier == "quick":
         return Plan(shards=4, cases_per_shard=700, timeout_s=400, shard_env=tzs)
-    return Plan(shards=16, cases_per_shard=12000, timeout_s=2400, shard_env=tzs)
+    return Plan(shards=16, cases_per_shard=80000, timeout_s=2400, shard_env=tzs)
 
 
 # ---------------------------------------------------------------------------------------------
